@@ -469,6 +469,12 @@ func sameExpr(a, b ssa.Value, d int) bool {
 	case *ssa.BinOp:
 		y, ok := b.(*ssa.BinOp)
 		return ok && x.Op == y.Op && sameExpr(x.X, y.X, d+1) && sameExpr(x.Y, y.Y, d+1)
+	case *ssa.Field:
+		y, ok := b.(*ssa.Field)
+		return ok && x.Field == y.Field && sameExpr(x.X, y.X, d+1)
+	case *ssa.UnOp:
+		y, ok := b.(*ssa.UnOp)
+		return ok && x.Op == y.Op && x.Op == token.MUL && sameAddr(x.X, y.X, 0)
 	case *ssa.Call:
 		y, ok := b.(*ssa.Call)
 		if !ok || x.Common().StaticCallee() == nil || x.Common().StaticCallee() != y.Common().StaticCallee() {
